@@ -349,11 +349,16 @@ func (c *client) Do(ctx context.Context, req *Request, opts ...RequestOption) (r
 	rc, cancel := context.WithTimeout(ctx, ropts.timeout)
 	defer cancel()
 
+	// register the waiter before the request is handed to the transport: a
+	// response that arrives right after the write must find its receiver
+	ch, unregister := c.register(rp.Metadata.RequestId)
+	defer unregister()
+
 	if err = c.write(&rp); err != nil {
 		return
 	}
 
-	res, err = c.recv(rc, rp.Metadata.RequestId)
+	res, err = c.recv(rc, rp.Metadata.RequestId, ch)
 	if err != nil {
 		return
 	}
@@ -604,21 +609,26 @@ func (c *client) handlePong(packet *protocol.Packet) {
 	c.lastPongAt = time.Now()
 }
 
-func (c *client) recv(ctx context.Context, rid uint32) (res *protocol.Packet, err error) {
-	ch := make(chan *protocol.Packet, 1)
-
-	defer func() {
-		c.recvsMu.Lock()
-		delete(c.recvs, rid)
-		c.recvsMu.Unlock()
-
-		close(ch)
-	}()
+// register creates the waiter of request rid; the returned func removes it
+func (c *client) register(rid uint32) (ch chan *protocol.Packet, unregister func()) {
+	ch = make(chan *protocol.Packet, 1)
 
 	c.recvsMu.Lock()
 	c.recvs[rid] = ch
 	c.recvsMu.Unlock()
 
+	unregister = func() {
+		c.recvsMu.Lock()
+		delete(c.recvs, rid)
+		c.recvsMu.Unlock()
+
+		close(ch)
+	}
+
+	return
+}
+
+func (c *client) recv(ctx context.Context, rid uint32, ch chan *protocol.Packet) (res *protocol.Packet, err error) {
 	select {
 	case res = <-ch:
 	case <-ctx.Done():
